@@ -1,3 +1,298 @@
-//! C13: shuttle micro-simulation of ConcurrentNodeIds + turnstile macro runs.
-pub fn check(_tier: &str) -> i32 { 2 }
-pub fn micro_main(_args: &[String]) -> i32 { 2 }
+//! C13: (a) shuttle micro-simulation of the real `ConcurrentNodeIds` whose
+//! atomics are the instrumented types of hook H1 (every atomic operation is a
+//! scheduling point); (b) macro runs: histories with many trees under the
+//! turnstile at logical pool sizes 1..16 (engine H with focus C13).
+
+use std::cell::RefCell;
+use std::collections::BTreeSet;
+use std::io::BufRead;
+use std::process::{Command, Stdio};
+use std::sync::Arc;
+use std::time::Instant;
+
+use roaring::RoaringBitmap;
+use serde::{Deserialize, Serialize};
+use serde_json::json;
+
+use crate::util::Fnv;
+
+pub const RULE: &str = "(a) shuttle: ConcurrentNodeIds::new(used) shared by 2-3 threads making 1-3 next() calls each, `used` over 22 subsets of 0..8 (empty, dense, holes, fewer holes than requests), random and PCT(depth 2-4) schedulers seeded from VERIF_SEED, every instrumented atomic operation a scheduling point; oracle: ids pairwise distinct, none in `used`, all < max(used)+1+requests. (b) turnstile: histories with 2-20 trees, small buckets, logical pool sizes 1,2,3,4,8,16, schedulers random/PCT/starve-one; oracle C01 after every build. evaluations = shuttle schedules + turnstile runs; non-trivial+distinct = distinct interleavings (sequence of (thread, atomic-op site)) with >= 2 threads inside next() + distinct turnstile schedule hashes with >= 2 tasks in flight";
+
+#[derive(Serialize, Deserialize, Clone, Debug)]
+pub struct Shape {
+    pub used: Vec<u32>,
+    pub reqs: Vec<usize>,
+}
+
+pub fn shapes() -> Vec<Shape> {
+    let useds: Vec<Vec<u32>> = vec![
+        vec![],
+        vec![0],
+        vec![1],
+        vec![0, 1, 2],
+        vec![0, 1, 2, 3, 4, 5, 6, 7],
+        vec![1, 2, 5],
+        vec![0, 2],
+        vec![0, 2, 4, 6],
+        vec![3],
+        vec![7],
+        vec![1, 7],
+        vec![0, 1, 2, 4],
+        vec![0, 1, 3, 4, 5],
+        vec![2, 3, 4, 5, 6, 7],
+        vec![0, 7],
+        vec![0, 1, 2, 3, 5, 6, 7],
+        vec![5],
+        vec![0, 3, 6],
+        vec![1, 2, 3, 4, 5, 6],
+        vec![0, 1, 2, 3, 4, 5, 7],
+        vec![6, 7],
+        vec![2],
+    ];
+    let reqs: Vec<Vec<usize>> = vec![vec![1, 1], vec![2, 1], vec![2, 2], vec![3, 3], vec![1, 1, 1], vec![2, 2, 2], vec![3, 2, 1]];
+    let mut v = Vec::new();
+    for u in &useds {
+        for r in &reqs {
+            v.push(Shape { used: u.clone(), reqs: r.clone() });
+        }
+    }
+    v
+}
+
+thread_local! {
+    static TRACE: RefCell<Vec<(u64, &'static str)>> = const { RefCell::new(Vec::new()) };
+    static INTERLEAVINGS: RefCell<BTreeSet<u64>> = const { RefCell::new(BTreeSet::new()) };
+    static OUTCOMES: RefCell<BTreeSet<u64>> = const { RefCell::new(BTreeSet::new()) };
+}
+
+struct ShuttleHooks;
+
+impl arroy::verif::Hooks for ShuttleHooks {
+    fn yield_point(&self, site: &'static str) {
+        let tid = {
+            let mut h = Fnv::new();
+            h.write_str(&format!("{:?}", shuttle::thread::current().id()));
+            h.finish()
+        };
+        TRACE.with(|t| t.borrow_mut().push((tid, site)));
+        // sleep(0), not yield_now: under PCT a yield lowers the caller's priority
+        shuttle::thread::sleep(std::time::Duration::ZERO);
+    }
+}
+
+fn scenario(shape: &Shape) {
+    TRACE.with(|t| t.borrow_mut().clear());
+    let used: RoaringBitmap = shape.used.iter().copied().collect();
+    let total: usize = shape.reqs.iter().sum();
+    let bound = used.max().map_or(0, |m| m + 1) + total as u32;
+    let gen = Arc::new(arroy::verif::ConcurrentNodeIds::new(used.clone()));
+    let mut handles = Vec::new();
+    for &n in &shape.reqs {
+        let gen = gen.clone();
+        handles.push(shuttle::thread::spawn(move || {
+            let mut got = Vec::new();
+            for _ in 0..n {
+                got.push(gen.next().expect("next() failed"));
+            }
+            got
+        }));
+    }
+    let mut all: Vec<u32> = Vec::new();
+    for h in handles {
+        all.extend(h.join().unwrap());
+    }
+    let mut sorted = all.clone();
+    sorted.sort_unstable();
+    for w in sorted.windows(2) {
+        assert!(w[0] != w[1], "C13: id {} handed out twice (used {:?}, requests {:?}, ids {:?})", w[0], shape.used, shape.reqs, all);
+    }
+    for id in &all {
+        assert!(!used.contains(*id), "C13: id {} is already in use (used {:?}, ids {:?})", id, shape.used, all);
+        assert!(*id < bound, "C13: id {} beyond max(used)+1+requests = {} (used {:?}, ids {:?})", id, bound, shape.used, all);
+    }
+    // record the interleaving and the outcome
+    let (ih, multi) = TRACE.with(|t| {
+        let t = t.borrow();
+        let mut h = Fnv::new();
+        let mut switches = 0;
+        for (i, (tid, site)) in t.iter().enumerate() {
+            h.write_u64(*tid);
+            h.write_str(site);
+            if i > 0 && t[i - 1].0 != *tid {
+                switches += 1;
+            }
+        }
+        (h.finish(), switches >= 2)
+    });
+    if multi {
+        INTERLEAVINGS.with(|s| {
+            s.borrow_mut().insert(ih);
+        });
+    }
+    let mut oh = Fnv::new();
+    for id in &all {
+        oh.write_u64(*id as u64);
+    }
+    OUTCOMES.with(|s| {
+        s.borrow_mut().insert(oh.finish());
+    });
+}
+
+/// `c13-micro run <vseed> <offset> <stride> <iters_per_shape> <outdir>` | `c13-micro replay <file>`
+pub fn micro_main(args: &[String]) -> i32 {
+    arroy::verif::install(Arc::new(ShuttleHooks));
+    if args.first().map(|s| s.as_str()) == Some("replay") {
+        let v: serde_json::Value = serde_json::from_slice(&std::fs::read(&args[1]).unwrap()).unwrap();
+        let shape: Shape = serde_json::from_value(v["shape"].clone()).unwrap();
+        let schedule = v["schedule"].as_str().unwrap().to_string();
+        std::panic::set_hook(Box::new(|_| {}));
+        let r = std::panic::catch_unwind(move || shuttle::replay(move || scenario(&shape), &schedule));
+        return match r {
+            Err(p) => {
+                let msg = p.downcast_ref::<String>().cloned().or_else(|| p.downcast_ref::<&str>().map(|s| s.to_string())).unwrap_or_default();
+                println!("reproduced: {}", msg.lines().next().unwrap_or(""));
+                1
+            }
+            Ok(()) => {
+                println!("not reproduced");
+                0
+            }
+        };
+    }
+    let vseed: u64 = args[1].parse().unwrap();
+    let offset: usize = args[2].parse().unwrap();
+    let stride: usize = args[3].parse().unwrap();
+    let iters: usize = args[4].parse().unwrap();
+    let outdir = std::path::PathBuf::from(&args[5]);
+    std::fs::create_dir_all(&outdir).ok();
+    std::panic::set_hook(Box::new(|_| {}));
+    let mut total = 0usize;
+    let mut failures = 0usize;
+    for (i, shape) in shapes().into_iter().enumerate() {
+        if i % stride != offset {
+            continue;
+        }
+        for (si, sched) in ["random", "pct2", "pct3", "pct4"].iter().enumerate() {
+            let seed = crate::util::mix(crate::util::mix(vseed, i as u64), si as u64);
+            let n = if *sched == "random" { iters / 2 } else { iters / 6 }.max(1);
+            let mut cfg = shuttle::Config::new();
+            cfg.failure_persistence = shuttle::FailurePersistence::File(Some(outdir.clone()));
+            let sh = shape.clone();
+            let before: BTreeSet<String> = list(&outdir);
+            let r = std::panic::catch_unwind(std::panic::AssertUnwindSafe(|| match *sched {
+                "random" => shuttle::Runner::new(shuttle::scheduler::RandomScheduler::new_from_seed(seed, n), cfg).run(move || scenario(&sh)),
+                _ => {
+                    let depth = 2 + si - 1;
+                    shuttle::Runner::new(shuttle::scheduler::PctScheduler::new_from_seed(seed, depth, n), cfg).run(move || scenario(&sh))
+                }
+            }));
+            match r {
+                Ok(k) => total += k,
+                Err(p) => {
+                    failures += 1;
+                    let msg = p.downcast_ref::<String>().cloned().or_else(|| p.downcast_ref::<&str>().map(|s| s.to_string())).unwrap_or_default();
+                    let after = list(&outdir);
+                    let new: Vec<&String> = after.difference(&before).collect();
+                    let schedule = new.first().and_then(|f| std::fs::read_to_string(outdir.join(f)).ok()).unwrap_or_default();
+                    let first = msg.lines().find(|l| l.contains("C13:")).unwrap_or_else(|| msg.lines().next().unwrap_or("")).to_string();
+                    println!("F {}", json!({"shape": shape, "scheduler": sched, "seed": seed, "schedule": schedule.trim(), "message": first}));
+                    break;
+                }
+            }
+        }
+    }
+    let inter: Vec<u64> = INTERLEAVINGS.with(|s| s.borrow().iter().copied().collect());
+    let outc = OUTCOMES.with(|s| s.borrow().len());
+    println!("T {}", json!({"schedules": total, "failures": failures, "interleavings": inter, "outcomes": outc}));
+    0
+}
+
+fn list(d: &std::path::Path) -> BTreeSet<String> {
+    std::fs::read_dir(d).map(|r| r.filter_map(|e| e.ok()).map(|e| e.file_name().to_string_lossy().to_string()).collect()).unwrap_or_default()
+}
+
+pub fn check(tier: &str) -> i32 {
+    let t0 = Instant::now();
+    let vseed = crate::driver::verif_seed();
+    let exe = std::env::current_exe().unwrap();
+    let per_shape: usize = std::env::var("VERIF_C13_ITERS").ok().and_then(|s| s.parse().ok()).unwrap_or(if tier == "thorough" { 650_000 } else { 13_000 });
+    let outdir = crate::driver::workdir_base().join("c13");
+    let workers = 16usize;
+    println!("VERIF_SEED={vseed} property=C13 tier={tier} engine=shuttle+turnstile shapes={} schedules/shape~{per_shape}", shapes().len());
+    let mut children = Vec::new();
+    for w in 0..workers {
+        let c = Command::new(&exe)
+            .args(["c13-micro", "run", &vseed.to_string(), &w.to_string(), &workers.to_string(), &per_shape.to_string(), outdir.to_str().unwrap()])
+            .stdout(Stdio::piped())
+            .stderr(Stdio::null())
+            .spawn()
+            .expect("spawn c13-micro");
+        children.push(c);
+    }
+    let mut schedules = 0u64;
+    let mut interleavings: BTreeSet<u64> = BTreeSet::new();
+    let mut outcomes = 0u64;
+    let mut failures: Vec<serde_json::Value> = Vec::new();
+    for mut c in children {
+        let rd = std::io::BufReader::new(c.stdout.take().unwrap());
+        let mut saw_total = false;
+        for line in rd.lines().map_while(Result::ok) {
+            if let Some(r) = line.strip_prefix("T ") {
+                let v: serde_json::Value = serde_json::from_str(r).unwrap();
+                schedules += v["schedules"].as_u64().unwrap();
+                outcomes += v["outcomes"].as_u64().unwrap();
+                for x in v["interleavings"].as_array().unwrap() {
+                    interleavings.insert(x.as_u64().unwrap());
+                }
+                saw_total = true;
+            } else if let Some(r) = line.strip_prefix("F ") {
+                failures.push(serde_json::from_str(r).unwrap());
+            }
+        }
+        let st = c.wait().unwrap();
+        if !st.success() || !saw_total {
+            eprintln!("HARNESS-ERROR c13-micro worker failed: {st}");
+            return 2;
+        }
+    }
+    let _ = std::fs::remove_dir_all(&outdir);
+    let mut micro_violations = 0;
+    for (i, f) in failures.iter().enumerate() {
+        if i >= 3 {
+            micro_violations += 1;
+            continue;
+        }
+        let path = format!("/verif/replays/C13-shuttle-{}.json", f["seed"].as_u64().unwrap_or(i as u64));
+        let rf = json!({"property": "C13", "engine": "shuttle", "shape": f["shape"], "scheduler": f["scheduler"], "schedule": f["schedule"], "message": f["message"]});
+        std::fs::create_dir_all("/verif/replays").ok();
+        std::fs::write(&path, serde_json::to_string_pretty(&rf).unwrap()).unwrap();
+        // replay in a fresh process: must fail the same way
+        let st = Command::new(&exe).args(["c13-micro", "replay", &path]).stdout(Stdio::null()).stderr(Stdio::null()).status().unwrap();
+        if st.code() != Some(1) {
+            eprintln!("HARNESS-ERROR shuttle failure does not replay from {path}");
+            return 2;
+        }
+        println!("violation: property=C13 kind=id_generator shape={} scheduler={}: {}", f["shape"], f["scheduler"], f["message"].as_str().unwrap_or(""));
+        println!("VIOLATION property=C13 replay={path}");
+        micro_violations += 1;
+    }
+    // (b) macro runs under the turnstile
+    let n = std::env::var("VERIF_RUNS").ok().and_then(|s| s.parse().ok()).unwrap_or(if tier == "thorough" { 40_000 } else { 1500 });
+    let agg = crate::driver::run_batch("C13", tier, vseed, n, 16);
+    if agg.nondeterministic > 0 {
+        eprintln!("HARNESS-ERROR nondeterministic macro runs");
+        return 2;
+    }
+    let extra = json!({
+        "add_evaluations": schedules,
+        "add_distinct": interleavings.len(),
+        "shuttle_schedules": schedules,
+        "shuttle_distinct_interleavings": interleavings.len(),
+        "shuttle_distinct_outcomes_summed_over_workers": outcomes,
+        "shuttle_shapes": shapes().len(),
+        "shuttle_failures": failures.len(),
+        "shuttle_wall_s": t0.elapsed().as_secs_f64(),
+        "pre_violations": micro_violations,
+    });
+    crate::driver::finish_check("C13", tier, "shuttle+turnstile", "exploration", RULE, vseed, n, agg, t0, extra)
+}
